@@ -86,6 +86,13 @@ static void act_cb(void *p)
             if (waiting && !M.s[i].live) { M.s[i].due_now = 1; M.s[i].fired = 1; }    /* cancelled: must not run any more, slot stays reserved for this step */
             break; }
         break; }
+    case 4: {                                 /* delete the LAST other live action (kind 1 takes the first): with three actions on one tick the victim is not the neighbour of the running one */
+        for (int i = M.pool - 1; i >= 0; i--) if (i != m && M.s[i].live) {
+            int waiting = M.s[i].due_now && !M.s[i].fired;
+            do_delete_id(M.s[i].id);
+            if (waiting && !M.s[i].live) { M.s[i].due_now = 1; M.s[i].fired = 1; }
+            break; }
+        break; }
     case 2:                                   /* create a one-shot */
         if (m_free_slots() > 0) do_create(1, 0, 0, 1);
         break;
